@@ -73,12 +73,14 @@ func TestC02Delivery(t *testing.T) {
 		byteAPI := p.hdr == nil && rapid.Bool().Draw(t, "byteAPI")
 		// several goroutines may share one receiving socket: each message still goes to exactly one
 		nrecv := rapid.SampledFrom([]int{1, 1, 2, 3}).Draw(t, "receiversPerSocket")
+		// options other than the queue lengths may be re-set (to the values they have) while messages flow
+		churn := rapid.IntRange(0, 2).Draw(t, "optionChurn") == 0
 		if p.multi && wq == 0 && stats.Known(knownPushWQ0) {
 			stats.Excluded(knownPushWQ0)
 			wq = 1
 		}
 		doc := map[string]interface{}{"test": "TestC02Delivery", "pattern": p.name, "transport": tr, "writeq": wq, "readq": rq,
-			"senders": nsend, "msgs": nmsg, "peers": npeers, "fault": fault, "faultAt": faultAt, "senderListens": flip, "byteAPI": byteAPI, "receiversPerSocket": nrecv, "rseed": os.Getenv("VERIF_RSEED")}
+			"senders": nsend, "msgs": nmsg, "peers": npeers, "fault": fault, "faultAt": faultAt, "senderListens": flip, "byteAPI": byteAPI, "receiversPerSocket": nrecv, "optionChurn": churn, "rseed": os.Getenv("VERIF_RSEED")}
 		var fmu sync.Mutex
 		var failures [][2]string
 		fail := func(k, f string, a ...interface{}) {
@@ -110,11 +112,11 @@ func TestC02Delivery(t *testing.T) {
 		}
 		setq(snd, mangos.OptionWriteQLen, wq)
 		setq(snd, mangos.OptionReadQLen, rq)
+		sendDL := 10 * time.Second
 		if fault && npeers == 1 {
-			_ = snd.SetOption(mangos.OptionSendDeadline, 300*time.Millisecond) // the only peer will vanish
-		} else {
-			_ = snd.SetOption(mangos.OptionSendDeadline, 10*time.Second)
+			sendDL = 300 * time.Millisecond // the only peer will vanish
 		}
+		_ = snd.SetOption(mangos.OptionSendDeadline, sendDL)
 		sev := fixture.Hook(snd)
 		rcvs := make([]mangos.Socket, npeers)
 		for i := range rcvs {
@@ -251,7 +253,32 @@ func TestC02Delivery(t *testing.T) {
 				}
 			}(s)
 		}
+		churnStop := make(chan struct{})
+		var churnWG sync.WaitGroup
+		if churn {
+			churnWG.Add(1)
+			go func() {
+				defer churnWG.Done()
+				for {
+					select {
+					case <-churnStop:
+						return
+					default:
+					}
+					_ = snd.SetOption(mangos.OptionSendDeadline, sendDL)
+					_ = snd.SetOption(mangos.OptionRecvDeadline, time.Second)
+					_ = snd.SetOption(mangos.OptionBestEffort, false)
+					for _, r := range rcvs {
+						_ = r.SetOption(mangos.OptionRecvDeadline, 100*time.Millisecond)
+						_ = r.SetOption(mangos.OptionSendDeadline, time.Second)
+					}
+					time.Sleep(200 * time.Microsecond)
+				}
+			}()
+		}
 		swg.Wait()
+		close(churnStop)
+		churnWG.Wait()
 		cmu.Lock()
 		fd := faultDone
 		cmu.Unlock()
@@ -319,6 +346,9 @@ func TestC02Delivery(t *testing.T) {
 		if nrecv > 1 {
 			stats.Class("several_receivers_per_socket")
 		}
+		if churn {
+			stats.Class("option_churn_during_traffic")
+		}
 		if nsend >= 2 || npeers >= 2 || fd || wq <= 1 || rq <= 1 {
 			stats.NonTrivial(fmt.Sprintf("A|%s|%s|%d|%d|%d|%d|%d|%v|%v|%d", p.name, tr, wq, rq, nsend, nmsg, npeers, fd, flip, nrecv))
 		}
@@ -363,9 +393,10 @@ func exclusiveProp(t *rapid.T) {
 	tr := rapid.SampledFrom([]string{"inproc", "tcp", "ipc"}).Draw(t, "transport")
 	nintr := rapid.IntRange(1, 3).Draw(t, "intruders")
 	nmsg := rapid.IntRange(5, 60).Draw(t, "msgs")
-	serverDials := false // the server listens: intruders need an address
-	_ = serverDials
-	doc := map[string]interface{}{"test": "TestC02PairExclusive", "proto": name, "transport": tr, "intruders": nintr, "msgs": nmsg, "rseed": os.Getenv("VERIF_RSEED")}
+	// the further connection attempts come either from dialers that call the server, or from the
+	// server's own dialers calling stand-by peers (then it is the server's side that refuses them)
+	serverDials := rapid.IntRange(0, 2).Draw(t, "serverDials") == 0
+	doc := map[string]interface{}{"test": "TestC02PairExclusive", "proto": name, "transport": tr, "intruders": nintr, "msgs": nmsg, "serverDials": serverDials, "rseed": os.Getenv("VERIF_RSEED")}
 	fail := func(k, f string, a ...interface{}) {
 		stats.Fail(t, "C02:pair-"+k, doc, "%s over %s with %d intruders: %s", name, tr, nintr, fmt.Sprintf(f, a...))
 	}
@@ -431,7 +462,15 @@ func exclusiveProp(t *rapid.T) {
 		opts[mangos.OptionDialAsynch] = true
 		opts[mangos.OptionReconnectTime] = 5 * time.Millisecond
 		opts[mangos.OptionMaxReconnectTime] = 5 * time.Millisecond
-		if err := s.DialOptions(addr, opts); err != nil {
+		if serverDials {
+			ia, _, err := fixture.Listen(s, tr)
+			if err != nil {
+				t.Fatalf("harness: stand-by listen: %v", err)
+			}
+			if err := srv.DialOptions(ia, opts); err != nil {
+				t.Fatalf("harness: server dial: %v", err)
+			}
+		} else if err := s.DialOptions(addr, opts); err != nil {
 			t.Fatalf("harness: intruder dial: %v", err)
 		}
 		iwg.Add(1)
@@ -512,7 +551,10 @@ func exclusiveProp(t *rapid.T) {
 	iwg.Wait()
 	stats.Eval()
 	stats.Class("pair_exclusive:" + name)
-	stats.NonTrivial(fmt.Sprintf("B|%s|%s|%d|%d", name, tr, nintr, nmsg))
+	if serverDials {
+		stats.Class("pair_exclusive_server_dials_standby")
+	}
+	stats.NonTrivial(fmt.Sprintf("B|%s|%s|%d|%d|%v", name, tr, nintr, nmsg, serverDials))
 	stats.Sample(doc)
 }
 
